@@ -543,6 +543,16 @@ class _Formatter:
         # comment immediately after ``(`` (line-continuation comment)
         # keeps its visual offset from the opener.
         if ct == COMMENT:
+            if (
+                self._paren_depth == 0
+                and prev.end == cur.start
+                and cs.startswith("#")
+            ):
+                # ``echo a#b``: a ``#`` glued to a subprocess word is part
+                # of the argument, not a comment. Whether the statement is
+                # a command is not always known here, and leaving a glued
+                # ``#`` glued is harmless for Python (``x = 1#c``).
+                return ""
             return "  "
 
         # Subprocess statement, outside any brackets: white space is what
